@@ -131,3 +131,21 @@ def token_overlays(base: str, rechecked_country: str | None = None):
                         yield ("token-rechecked:" + tok, rechecked_country + cd + t[4:])
         yield ("token-prefixed:" + tok, tok + base)
         yield ("token-prefixed:" + tok, tok + " " + base)
+
+
+FOLDS = [("ı", "I"), ("ſ", "S"), ("ß", "SS"), ("ﬁ", "FI"), ("ﬀ", "FF"), ("ﬆ", "ST"),
+         ("ﬅ", "ST"), ("ﬂ", "FL")]
+
+
+def fold_variants(text: str):
+    """Non-ASCII characters whose str.upper() is ASCII, put in place of that ASCII text wherever it
+    occurs (the statement normalises by upper-casing, so these variants are the SAME IBAN / BIC)."""
+    for ch, up in FOLDS:
+        start = 0
+        while True:
+            i = text.find(up, start)
+            if i < 0:
+                break
+            yield ("fold:" + up, text[:i] + ch + text[i + len(up):])
+            yield ("fold-lower:" + up, (text[:i] + ch + text[i + len(up):]).lower())
+            start = i + 1
